@@ -201,8 +201,11 @@ def arg_tuple(draw, kname):
                 args[name] = draw(st.integers(-3, 3))
             elif member in ("maxcount",):
                 args[name] = draw(st.integers(0, 4))
+            elif name == "base" and draw(st.integers(0, 5)) == 0:
+                # index movers: full-width extremes (the definition is exact on Python integers)
+                args[name] = draw(st.sampled_from([2 ** 31 - 2, 2 ** 31, 2 ** 32 - 2, 2 ** 32 + 5, 2 ** 40]))
             else:
-                args[name] = draw(st.sampled_from([n, n, n, n, m, 0, 1, 2, n + 1, max(n - 1, 0)]))
+                args[name] = ("scalar", draw(st.sampled_from([n, n, n, n, m, 0, 1, 2, n + 1, max(n - 1, 0)])), draw(st.integers(0, 99)))
             continue
         # lists
         if member in ("offsets", "rawoffsets"):
@@ -269,6 +272,18 @@ def arg_tuple(draw, kname):
             lo = 0 if any(t.startswith("uint") for t in types) else -1
             args[name] = draw(st.lists(st.integers(lo, max(n, m) + 1), min_size=L, max_size=L))
     # resolve symbolic scalars
+    interesting = set()
+    for name, v in args.items():
+        if isinstance(v, list) and not name.startswith("init:") and v and all(isinstance(x, int) and not isinstance(x, bool) for x in v):
+            interesting.update([len(v), max(v), max(v) + 1])
+    interesting = sorted(x for x in interesting if 0 <= x <= 12)
+    for name, v in list(args.items()):
+        if isinstance(v, tuple) and v[0] == "scalar":
+            # boundary bias: a length-like scalar often coincides with a list's length or its largest element (+1)
+            if interesting and v[2] < 35:
+                args[name] = interesting[v[2] % len(interesting)]
+            else:
+                args[name] = v[1]
     for name, v in list(args.items()):
         if isinstance(v, tuple):
             if v[0] == "outlength":
